@@ -143,7 +143,8 @@ PROPS = {
     'C13': dict(
         theorems=['C13_other_transactions_invisible', 'C13_own_message_depends_on_own_view', 'C13_end_block', 'C13_isolation'],
         runs=[chain('iso', 'isolation', 48, 1600, 'check_C13'),
-              chain('faults', 'faults', 16, 400, 'check_C11')],
+              chain('faults', 'faults', 16, 400, 'check_C11'),
+              chain('many', 'many', 6, 160, 'check_C11', shards_quick=6)],
         fields=[2, 3, 4, 5, 15, 16, 20, 21],
         rule=CHAIN_RULE + "; isolation profile: 2-4 tenants with disjoint operators and NFTs; every history is executed a second time with the other tenants' transactions (and the bank sends to their treasuries) removed, and tenant 1's tenant record, pending records, treasury balances, typed events and transaction results are compared block by block",
         assumptions=SETTLE_ASSUME + ["C13_isolation quantifies over pairs of histories with: no injected back-end faults (the fault plan of the model is positional across tenants), NFT transfers as the only environment events, tenant t's transactions one message each, recipients that are 20-byte addresses, and a depositor's wallet covering its deposit equally in both runs; back-end faults hitting other tenants are covered by the correspondence runs and by C11"]),
